@@ -51,4 +51,25 @@ theorem modexp_core (b e m msb g : Nat) (hg : modexpGas b e m msb = g) (hlt : g 
     · omega
     · omega
 
+/-- the non-modexp precompiles materialise a constant number of bytes, whatever the input -/
+theorem runBuffers_const (addr : Nat) (h5 : addr ≠ 5) (input : Bytes) : runBuffers addr input ≤ 225 := by
+  unfold runBuffers
+  split <;> first | omega | (split <;> omega) | contradiction
+
+/-- their output is a constant or the input itself -/
+theorem outLen_le (addr : Nat) (h5 : addr ≠ 5) (input : Bytes) (n : Nat) (h : outLen addr input = some n) :
+    n ≤ max 32 input.length := by
+  unfold outLen at h
+  split at h <;> first | (cases h; omega) | contradiction | (cases h)
+
+/-- the work of the hashing precompiles is linear in the input and each 32-byte word is charged -/
+theorem runSteps_le_gas (addr : Nat) (h5 : addr ≠ 5) (h1 : 1 ≤ addr) (h8 : addr ≤ 8) (input : Bytes) :
+    runSteps addr input ≤ requiredGas addr input := by
+  have c : ecrecoverGas = 3000 ∧ sha256PerWordGas = 12 ∧ sha256BaseGas = 60 ∧ ripemd160PerWordGas = 120 ∧ ripemd160BaseGas = 600 ∧
+      identityPerWordGas = 3 ∧ identityBaseGas = 15 ∧ bn256AddGas = 500 ∧ bn256ScalarMulGas = 40000 ∧ bn256PairingBaseGas = 100000 := by decide
+  obtain ⟨c1, c2, c3, c4, c5, c6, c7, c8, c9, c10⟩ := c
+  unfold runSteps requiredGas words
+  rcases (by omega : addr = 1 ∨ addr = 2 ∨ addr = 3 ∨ addr = 4 ∨ addr = 6 ∨ addr = 7 ∨ addr = 8) with h | h | h | h | h | h | h <;>
+    subst h <;> simp only [c1, c2, c3, c4, c5, c6, c7, c8, c9, c10] <;> omega
+
 end Aqv.Vm.Pre
